@@ -825,11 +825,23 @@ func vfCheckDelivery(res *vfRes, prop string, run *vfStreamRun, final bool) vfDe
 	for ri, rd := range reads {
 		cands := byHash[rd.Hash]
 		idx := -1
+		// Tiny messages of one stream can have identical bytes (a 1-byte message carries idx mod 256). If
+		// the read can be explained by an undelivered write that keeps the ordered sequence intact, that
+		// explanation is taken; only if there is none the earliest undelivered candidate is charged.
 		for _, c := range cands {
-			if delivered[c] == 0 {
+			if delivered[c] == 0 && (writes[c].Unordered && !writes[c].DCEP || writes[c].NoOrder || c > lastOrderedIdx) {
 				idx = c
 
 				break
+			}
+		}
+		if idx < 0 {
+			for _, c := range cands {
+				if delivered[c] == 0 {
+					idx = c
+
+					break
+				}
 			}
 		}
 		if idx < 0 {
